@@ -114,19 +114,35 @@ def argsFromInput (inp : ArgsInput) : R Args := do
   let (vk, _) ← if inp.varkw then (match vs with | x :: r => pure (some x, r) | [] => throw .raised) else pure (none, vs)
   pure ⟨posOnly, posOrKw, vp, kwOnly, vk⟩
 
-def PStr.truthy (s : PStr) : Bool := s.hex != ""
-
 def dedupKeep : List PStr → List PStr → List PStr
   | [], acc => acc.reverse
   | x :: xs, acc => if acc.contains x then dedupKeep xs acc else dedupKeep xs (x :: acc)
 
 def optName : Option PStr → List PStr
-  | some s => if s.truthy then [s] else []
+  | some s => [s]
   | none => []
 
 /-- `args.parameters.keys()` (signature order; an OrderedDict, so duplicate names collapse) -/
 def Args.paramNames (a : Args) : List PStr :=
   dedupKeep (a.posOnly ++ a.posOrKw ++ optName a.varPos ++ a.kwOnly ++ optName a.varKw) []
+
+inductive Kind | posOnly | posOrKw | varPos | kwOnly | varKw
+deriving DecidableEq, Repr
+
+/-- the (name, kind) pairs `args_to_parameters` feeds to `OrderedDict`, in signature order -/
+def Args.parametersRaw (a : Args) : List (PStr × Kind) :=
+  a.posOnly.map (·, Kind.posOnly) ++ a.posOrKw.map (·, Kind.posOrKw) ++ (optName a.varPos).map (·, Kind.varPos)
+    ++ a.kwOnly.map (·, Kind.kwOnly) ++ (optName a.varKw).map (·, Kind.varKw)
+
+/-- `OrderedDict.__setitem__`: a repeated key keeps its position and takes the new value -/
+def odictInsert (k : PStr) (v : Kind) : List (PStr × Kind) → List (PStr × Kind)
+  | [] => [(k, v)]
+  | (k', v') :: r => if k == k' then (k', v) :: r else (k', v') :: odictInsert k v r
+
+def odict (l : List (PStr × Kind)) : List (PStr × Kind) := l.foldl (fun acc kv => odictInsert kv.1 kv.2 acc) []
+
+/-- `Args.parameters` -/
+def Args.parameters (a : Args) : List (PStr × Kind) := odict a.parametersRaw
 
 /-- `len(args)` -/
 def Args.len (a : Args) : Nat := a.paramNames.length
@@ -146,14 +162,12 @@ def bNOFREE := 6
 def bCOROUTINE := 7
 def bASYNC_GENERATOR := 9
 
-/-- highest bit position we look at in a flag word (co_flags is a C int) -/
-def flagBits : Nat := 64
+/-- the word with exactly the given bit positions set (`from_flags_data`) -/
+def fromFlags (bits : List Nat) : Nat := bits.foldl (fun a b => a ||| (1 <<< b)) 0
 
-/-- `to_flags_data`: the set of set bits, or a ValueError if one of them has no name -/
+/-- `to_flags_data`: the named bits that are set, or a ValueError if a set bit has no name -/
 def toFlags (F : FlagTable) (w : Nat) : R (List Nat) :=
-  if w ≥ 2^flagBits then throw .unmodelled
-  else if (List.range flagBits).any (fun b => w.testBit b && !F.known.contains b) then throw .raised
-  else pure (F.known.filter (fun b => w.testBit b))
+  if w &&& fromFlags F.known = w then pure (F.known.filter (fun b => w.testBit b)) else throw .raised
 
 /-- seed the table with indices `0..n-1` (the parameters), as `found_index(i)` does -/
 def seedFound {α} (keyEq : α → α → Bool) : ToArgs α → List Nat → R (ToArgs α)
